@@ -39,6 +39,19 @@ CHECKS = {
  "C14": ("model_checking", "Save is UNCHANGED obj and a function of obj in the specification; replay compares the real object's full state before/after every save and the bytes of two consecutive saves; memcheck/MALLOC_PERTURB legs for definedness",
          "Every save of the replay is checked for purity (projected state identical before and after), repeatability (second save byte-identical) and equality with the writer model, which is a function of the abstract state only - a byte that depends on anything else (uninitialised or unrelated memory) cannot match the model in two differently perturbed runs.",
          "definedness relies on byte equality with the model under two MALLOC_PERTURB_ fill values (thorough) and on memcheck as sensor", "6/C14"),
+
+ "C02": ("model_checking", "spec-level encoder EncodeWith over layout variants + independent decoder Decode in TLA+ (ASSUME FormatOracle checked by TLC) ; every generated file loaded by the real reader and compared with the reader model's object",
+         "80 files (10 content shapes x 8 layouts: leading zeros, parameter block 3, zeroed prologue, reversed/out-of-order ids, sparse ids, 1-element arrays, combinations; contents with events, shifted first frame, fewer/more labels, empty ANALOG group, byte/3-D/padded-string/long-description/locked parameters, analog-only, point-only, empty) are produced inside TLC; TLC checks that the pointer-following decoder returns the encoded content and that the reader model agrees; the real reader must produce exactly the reader model's object for every file.",
+         "content shapes up to 2 points x 2 channels x 2 sub-frames x 2 frames; encoder and decoder are both written from the format document by the same author (a shared misreading would go unnoticed; cross-checked on ezc3d's own files through C03)", "6/C02"),
+ "C12": ("model_checking", "TLC evaluates the byte/word conversion lemmas over all 2^8 / 2^16 values; spec-generated pattern files (all byte values, all 16-bit values, header-word boundaries, float sign x exponent classes) loaded and re-saved by the real code, values and bytes compared with the model",
+         "The integer spaces are enumerated completely (exhaustive over 2^8 and 2^16, both in TLC's lemmas and in the files given to the real reader); floats are covered per (sign, exponent) class with four mantissas; after loading, the values must equal the model's and a re-save must reproduce the bytes.",
+         "float space is sampled by class (256 exponents x 2 signs x 4 mantissas), not exhaustively; POINT:RATE / ANALOG:RATE keep table values (they are interpreted arithmetically)", "6/C12"),
+ "C13": ("exploration", "histories = transitions of the TLA+ slices (MC_Shape, MC_IO, MC_Params, MC_Lookup, MC_Frames), executed under ASan+UBSan+_GLIBCXX_ASSERTIONS; a sanitizer report is a 'crash' result of that history",
+         "The specification decides which executions are run (every transition of the bounded slices incl. refused calls, look-ups at and beyond the size, save/load, destruction); the sensor for the memory error itself is the sanitizer build. quick samples every 8th transition (each case executes its whole path from Init), thorough runs all of them.",
+         "sensor = clang 14 ASan/UBSan; memory errors that need inputs outside the slices' alphabets are not reached", "6/C13"),
+ "C15": ("fault_enumeration", "EzFault.tla (SaveUnderFault) model-checked by TLC; every save-under-fault of the real library recorded as an event and validated by TLC against EzFaultTrace.tla (trace validation)",
+         "Faults are enumerated against the real code through the operating system: unopenable destinations (missing directory, directory, read-only file as an unprivileged uid), /dev/full, and RLIMIT_FSIZE = k for every byte offset k of the smallest object and boundary / sampled offsets of four larger ones (thorough: every offset of every object). Each observation must be a step of the specification: normal return only with the complete content on disk, I/O failure otherwise.",
+         "write errors the OS reports only at a later fsync are outside the model", "6/C15"),
 }
 NA = {
 }
